@@ -23,6 +23,7 @@
 #include <kernel/adjacency/permutation.hpp>
 
 #include <algorithm>
+#include <cmath>
 #include <dirent.h>
 
 using namespace c11;
@@ -191,6 +192,117 @@ namespace
     return std::unique_ptr<MeshTo_>(raw);
   }
 
+
+  // ---------------------------------------------------------------------------------------------- F: chart parameter families
+  template<typename Mesh_>
+  struct ChartHolder
+  {
+    MeshAtlas<Mesh_> atlas;
+    RootMeshNode<Mesh_> node;
+    PartitionSet ps;
+    const Atlas::ChartBase<Mesh_>* chart = nullptr;
+    std::string written, chart_text, what;
+    bool ok = false;
+    ChartHolder() : atlas(), node(nullptr, &atlas) {}
+    void parse(const std::string& text)
+    {
+      try
+      {
+        std::istringstream iss(text);
+        MeshFileReader reader(iss);
+        reader.parse(node, atlas, &ps);
+        chart = atlas.find_mesh_chart("c");
+        if(chart == nullptr) { what = "chart 'c' not in atlas"; return; }
+        std::ostringstream os; { MeshFileWriter w(os); w.write(&node, &atlas, &ps); }
+        written = os.str();
+        std::ostringstream cs; chart->write(cs, ""); chart_text = cs.str();
+        ok = true;
+      }
+      catch(const std::exception& e) { what = e.what(); }
+    }
+  };
+
+  inline bool near(double a, double b)
+  {
+    if(!std::isfinite(a) || !std::isfinite(b)) return !std::isfinite(a) && !std::isfinite(b);
+    return std::fabs(a - b) <= 1e-12 * (1.0 + std::fabs(a));
+  }
+
+  /// one chart given as XML text: write -> parse -> write byte-identical, same geometric object, expected parameter strings present
+  template<typename Mesh_>
+  void chart_case(verif::Ctx& c, const std::string& label, const std::string& chart_xml, const std::vector<std::string>& expect_substrings)
+  {
+    constexpr int wd = Mesh_::world_dim;
+    const std::string type = "conformal:hypercube:" + itos(wd) + ":" + itos(wd);
+    const std::string text = "<FeatMeshFile version=\"1\" mesh=\"" + type + "\">\n  <Chart name=\"c\">\n" + chart_xml + "  </Chart>\n</FeatMeshFile>\n";
+    c.desc([&]{ return "chart family " + label + " | " + printable(chart_xml, 700); });
+    const std::string key = "chart " + label;
+    ChartHolder<Mesh_> h0; h0.parse(text);
+    if(!c.check(h0.ok, key + " :: rejected", [&]{ return "chart text is not accepted: " + h0.what; })) return;
+    for(auto& e : expect_substrings)
+      c.check(h0.written.find(e) != std::string::npos, key + " :: parameter", [&]{ return "written chart does not contain '" + e + "': " + printable(h0.chart_text, 500); });
+    ChartHolder<Mesh_> h1; h1.parse(h0.written);
+    if(!c.check(h1.ok, key + " :: rewrite-rejected", [&]{ return "written chart is rejected: " + h1.what + " | " + printable(h0.written, 600); })) return;
+    c.check(h1.written == h0.written, key + " :: roundtrip", [&]{ return "second write differs: '" + printable(h0.chart_text, 400) + "' vs '" + printable(h1.chart_text, 400) + "'"; });
+    // same geometric object
+    const auto& a = *h0.chart; const auto& b = *h1.chart;
+    c.check(std::string(a.get_type()) == std::string(b.get_type()) && a.can_explicit() == b.can_explicit() && a.can_implicit() == b.can_implicit(), key + " :: kind",
+      [&]{ return "type / capabilities differ: " + std::string(a.get_type()) + " vs " + std::string(b.get_type()); });
+    typedef typename Atlas::ChartBase<Mesh_>::WorldPoint WP;
+    // generic (non-symmetric) probe points: dyadic ones hit exact ties of the nearest-point search (circle centre, points
+    // equidistant from two curve segments) where rounding noise of 1e-17 in the rotation matrix legitimately flips the answer
+    const double pts[6][3] = {{0.2371, 0.5113, 0.1297}, {1.5231, -0.7409, 0.4877}, {-0.5127, 0.1319, -1.0433}, {0.7591, 0.8647, 2.0179}, {2.0353, 1.0117, -0.2579}, {-1.2713, -1.4923, 0.3701}};
+    std::string diff;
+    const auto* sma = dynamic_cast<const Atlas::SurfaceMesh<Mesh_>*>(&a);
+    const auto* smb = dynamic_cast<const Atlas::SurfaceMesh<Mesh_>*>(&b);
+    if(sma != nullptr || smb != nullptr)
+    {
+      // SurfaceMesh::project aborts for points whose foot point is in no triangle (not a parser matter): compare the triangulation itself
+      if(sma == nullptr || smb == nullptr) diff = "one chart is a SurfaceMesh, the other is not";
+      else
+      {
+        const auto& ma = *sma->_surface_mesh; const auto& mb = *smb->_surface_mesh;
+        if(ma.get_num_entities(0) != mb.get_num_entities(0) || ma.get_num_entities(2) != mb.get_num_entities(2)) diff = "surface mesh sizes differ";
+        else
+        {
+          for(Index i = 0; i < ma.get_num_entities(0) && diff.empty(); ++i) for(int j = 0; j < 3; ++j) if(!near(ma.get_vertex_set()[i][j], mb.get_vertex_set()[i][j])) diff = "surface vertex " + itos((long long)i) + " differs";
+          const auto& ia = ma.template get_index_set<2, 0>(); const auto& ib = mb.template get_index_set<2, 0>();
+          for(Index i = 0; i < ia.get_num_entities() && diff.empty(); ++i) for(int j = 0; j < 3; ++j) if(ia[i][j] != ib[i][j]) diff = "surface triangle " + itos((long long)i) + " differs";
+        }
+        c.count("chart_probe_evaluations");
+      }
+    }
+    for(int i = 0; i < 6 && diff.empty() && sma == nullptr; ++i)
+    {
+      WP p; for(int j = 0; j < wd; ++j) p[j] = pts[i][j];
+      const std::string ps = "(" + g6(pts[i][0]) + "," + g6(pts[i][1]) + (wd > 2 ? "," + g6(pts[i][2]) : "") + ")";
+      if(a.can_implicit())
+      {
+        WP qa = a.project(p), qb = b.project(p);
+        for(int j = 0; j < wd; ++j) if(!near(qa[j], qb[j])) diff = "project" + ps + " component " + itos(j) + ": " + std::to_string(qa[j]) + " vs " + std::to_string(qb[j]);
+        double da = a.dist(p), db = b.dist(p);
+        if(diff.empty() && !near(da, db)) diff = "dist" + ps + ": " + std::to_string(da) + " vs " + std::to_string(db);
+        double sa = a.signed_dist(p), sb = b.signed_dist(p);
+        if(diff.empty() && !near(sa, sb)) diff = "signed_dist" + ps + ": " + std::to_string(sa) + " vs " + std::to_string(sb);
+        c.count("chart_probe_evaluations", 3);
+      }
+    }
+    if(a.can_explicit() && b.can_explicit())
+    {
+      for(double t : {0.0, 0.5, 1.0, 1.75, 2.5})
+      {
+        if(!diff.empty()) break;
+        WP prm; for(int j = 0; j < wd; ++j) prm[j] = 0.0; prm[0] = t; if(wd > 2) prm[1] = 0.375;
+        WP qa = a.map(prm), qb = b.map(prm);
+        for(int j = 0; j < wd; ++j) if(!near(qa[j], qb[j])) diff = "map(" + g6(t) + ") component " + itos(j) + ": " + std::to_string(qa[j]) + " vs " + std::to_string(qb[j]);
+        c.count("chart_probe_evaluations");
+      }
+    }
+    c.check(diff.empty(), key + " :: geometry", [&]{ return "the re-parsed chart is a different geometric object: " + diff + " | first write '" + printable(h0.chart_text, 300) + "'"; });
+    c.outcome("chart family: " + std::string(a.get_type()));
+    c.nontrivial(verif::Hash().str("chart").str(label).str(chart_xml).get());
+  }
+
   // ---------------------------------------------------------------------------------------------- C: property maps
   bool pm_key_ok(const std::string& k) { return !k.empty() && k == trim_ws(k) && k.find('#') == std::string::npos && k.find('=') == std::string::npos && k.find('\n') == std::string::npos; }
   bool pm_val_ok(const std::string& v) { return v == trim_ws(v) && v.find('#') == std::string::npos && v.find('\n') == std::string::npos && (v.empty() || v.back() != '&'); }
@@ -217,7 +329,9 @@ int main(int argc, char** argv)
   spec.rule = "cases: A one per shipped mesh file (data/meshes/*.xml, files that only make sense together with a chart file are parsed together with it); "
     "B one per generated node (refined unit cube of H1/H2/H3/S2/S3 x level x coordinate variant; test_aux meshes in all orientations) carrying boundary parts without/with "
     "topology, attributes, charts, two partitions, an internal part; C one per property-map tree (entries from keys x values, sections x nested section); D one per graph "
-    "(domain x image size <= 3x3, every adjacency relation, plus duplicates and the empty graphs); E one per permutation of <= 5 elements. Non-trivial: the object was "
+    "(domain x image size <= 3x3, every adjacency relation, plus duplicates and the empty graphs); E one per permutation of <= 5 elements; F one per chart of a parameter family "
+    "(Circle radius x midpoint x domain, Sphere radius x midpoint, Bezier open/closed x orientation x params x degree pattern, SurfaceMesh variants, Extrude angles {0,+-0.1,+-0.25,0.375,0.5}^3 incl. both "
+    "gimbal-lock pitches x origin/offset variants x 4 inner charts): write -> parse -> write byte-identical, re-parsed chart equal on project/dist/signed_dist/map at dyadic probe points within 1e-12. Non-trivial: the object was "
     "written and parsed back (hash = object identity).";
   spec.bounds_quick = "A all shipped files; B levels 0..2 (3D: 0..1); C trees with <= 2 root entries, <= 2 sections, <= 2 entries per section, <= 1 nested section; D <= 3x3; E n <= 5";
   spec.bounds_thorough = "B levels 0..3 (3D: 0..2); otherwise as quick";
@@ -316,6 +430,94 @@ int main(int argc, char** argv)
       if(c.want()) { c.desc([&]{ return "generated node: big tetris hexa mesh variant " + itos(variant); }); node_case<MeshH3>(c, adopt<TestAux::HexaMesh, MeshH3>(TestAux::create_big_tetris_mesh_3d()), "big tetris hexa v" + itos(variant), variant); }
       if(c.want()) { c.desc([&]{ return "generated node: big tetra mesh variant " + itos(variant); }); node_case<MeshS3>(c, adopt<TestAux::TetraMesh, MeshS3>(TestAux::create_big_tetra_mesh_3d()), "big tetra v" + itos(variant), variant); }
       if(c.want()) { c.desc([&]{ return "generated node: patch tria mesh variant " + itos(variant); }); node_case<MeshS2>(c, adopt<TestAux::TriaMesh, MeshS2>(TestAux::create_patch_tria_mesh_2d()), "patch tria v" + itos(variant), variant); }
+    }
+
+
+    // ------------------------------------------------------------------ F: chart parameter families
+    {
+      auto attr_num = [](const char* n, std::initializer_list<double> v) { std::string s = std::string(n) + "=\""; bool f = true; for(double x : v) { s += (f ? "" : " ") + g6(x); f = false; } return s + "\""; };
+      // ---- Circle
+      const double radii[3] = {0.25, 1.0, 2.5};
+      const double mids[2][3] = {{0.0, 0.0, 0.0}, {0.5, -0.25, 0.125}};
+      const char* domains[5] = {"", "0 1", "0 4", "0.625 -0.375", "-1 1"};
+      for(double r : radii) for(auto& m : mids) for(const char* d : domains)
+      {
+        if(!c.want()) continue;
+        std::string xml = "    <Circle " + attr_num("radius", {r}) + " " + attr_num("midpoint", {m[0], m[1]}) + (d[0] ? std::string(" domain=\"") + d + "\"" : std::string()) + " />\n";
+        chart_case<MeshH2>(c, "circle r=" + g6(r) + " mid=" + g6(m[0]) + "," + g6(m[1]) + " dom=" + d, xml, {attr_num("radius", {r}), attr_num("midpoint", {m[0], m[1]})});
+      }
+      // ---- Sphere
+      for(double r : radii) for(auto& m : mids)
+      {
+        if(!c.want()) continue;
+        std::string xml = "    <Sphere " + attr_num("radius", {r}) + " " + attr_num("midpoint", {m[0], m[1], m[2]}) + " />\n";
+        chart_case<MeshH3>(c, "sphere r=" + g6(r) + " mid=" + g6(m[0]) + "," + g6(m[1]) + "," + g6(m[2]), xml, {attr_num("radius", {r}), attr_num("midpoint", {m[0], m[1], m[2]})});
+      }
+      // ---- Bezier: 3 segments with the given numbers of control points; closed curves end in their first point
+      auto bezier_xml = [&](bool closed, int ori, bool params, const int ctrl[3], const std::string& ind)
+      {
+        const double vx[4][2] = {{0.0, 0.0}, {1.0, 0.0}, {1.0, 1.0}, {0.0, 1.0}};
+        std::string x = ind + "<Bezier dim=\"2\" size=\"" + itos(closed ? 5 : 4) + "\" type=\"" + (closed ? "closed" : "open") + "\"" + (ori != 0 ? " orientation=\"" + itos(ori) + "\"" : std::string()) + ">\n";
+        x += ind + "  <Points>\n" + ind + "    0 " + g6(vx[0][0]) + " " + g6(vx[0][1]) + "\n";
+        const int np = closed ? 4 : 3;
+        for(int sgm = 0; sgm < np; ++sgm)
+        {
+          const double* a = vx[sgm]; const double* b = vx[(sgm + 1) % 4];
+          const int nc = ctrl[sgm % 3];
+          x += ind + "    " + itos(nc);
+          for(int k = 1; k <= nc; ++k)
+          {
+            // control points off the chord (dyadic offsets)
+            double t = double(k) / double(nc + 1);
+            double px = a[0] + t * (b[0] - a[0]) + 0.125 * double(k) * (b[1] - a[1]);
+            double py = a[1] + t * (b[1] - a[1]) - 0.125 * double(k) * (b[0] - a[0]);
+            x += " " + g6(px) + " " + g6(py);
+          }
+          x += " " + g6(b[0]) + " " + g6(b[1]) + "\n";
+        }
+        x += ind + "  </Points>\n";
+        if(params) { x += ind + "  <Params>\n"; for(int i = 0; i <= np; ++i) x += ind + "    " + g6(double(i) * 0.75) + "\n"; x += ind + "  </Params>\n"; }
+        x += ind + "</Bezier>\n";
+        return x;
+      };
+      const int ctrls[4][3] = {{0, 0, 0}, {1, 0, 2}, {2, 2, 2}, {2, 1, 0}};
+      for(int closed = 0; closed < 2; ++closed) for(int ori : {0, 1, -1}) for(int params = 0; params < 2; ++params) for(auto& ct : ctrls)
+      {
+        if(!c.want()) continue;
+        chart_case<MeshH2>(c, std::string("bezier ") + (closed ? "closed" : "open") + " ori=" + itos(ori) + (params ? " params" : " noparams") + " ctrl=" + itos(ct[0]) + itos(ct[1]) + itos(ct[2]),
+          bezier_xml(closed != 0, ori, params != 0, ct, "    "), {});
+      }
+      // ---- SurfaceMesh
+      {
+        const char* sms[4] = {
+          "    <SurfaceMesh verts=\"3\" trias=\"1\">\n      <Vertices>\n        0 0 0\n        1 0 0\n        0 1 0.5\n      </Vertices>\n      <Triangles>\n        0 1 2\n      </Triangles>\n    </SurfaceMesh>\n",
+          "    <SurfaceMesh verts=\"4\" trias=\"2\">\n      <Vertices>\n        0 0 0\n        1 0 0\n        0 1 0\n        1 1 0.5\n      </Vertices>\n      <Triangles>\n        0 1 2\n        1 3 2\n      </Triangles>\n    </SurfaceMesh>\n",
+          "    <SurfaceMesh verts=\"4\" trias=\"4\">\n      <Vertices>\n        0 0 0\n        1 0 0\n        0 1 0\n        0 0 1\n      </Vertices>\n      <Triangles>\n        0 2 1\n        0 1 3\n        1 2 3\n        0 3 2\n      </Triangles>\n    </SurfaceMesh>\n",
+          "    <SurfaceMesh verts=\"4\" trias=\"2\">\n      <Vertices>\n        0.1 0.2 0.3\n        1.7 -0.3 0.1\n        -0.4 1.3 0\n        1.1 1.2 0.7\n      </Vertices>\n      <Triangles>\n        2 0 1\n        2 1 3\n      </Triangles>\n    </SurfaceMesh>\n"};
+        for(int i = 0; i < 4; ++i) { if(!c.want()) continue; chart_case<MeshH3>(c, "surfacemesh variant " + itos(i), sms[i], {}); }
+      }
+      // ---- Extrude: angles (yaw, pitch, roll) in revolutions over a grid that contains both gimbal-lock pitches
+      {
+        const double ang[7] = {0.0, 0.1, -0.1, 0.25, -0.25, 0.5, 0.375};
+        const int ct1[3] = {2, 1, 0};
+        const std::string inner[4] = {
+          "      <Circle radius=\"0.25\" midpoint=\"0.5 0.5\" domain=\"0.625 -0.375\" />\n",
+          "      <Circle radius=\"1\" midpoint=\"0 0\" />\n",
+          bezier_xml(false, 0, true, ct1, "      "),
+          bezier_xml(true, -1, false, ct1, "      ")};
+        const char* inner_name[4] = {"circle+domain", "circle", "bezier open", "bezier closed"};
+        struct OO { const char* name; const char* attrs; std::vector<std::string> expect; };
+        const OO oos[4] = {{"plain", "", {}}, {"origin", " origin=\"0.5 0.25\"", {"origin=\"0.5 0.25\""}}, {"offset", " offset=\"0 0.125 0.25\"", {"offset=\"0 0.125 0.25\""}},
+          {"origin+offset", " origin=\"-0.25 1\" offset=\"1 -2 0.5\"", {"origin=\"-0.25 1\"", "offset=\"1 -2 0.5\""}}};
+        for(int in = 0; in < 4; ++in) for(auto& oo : oos)
+          for(double ay : ang) for(double ap : ang) for(double ar : ang)
+          {
+            if(!c.want()) continue;
+            const bool any = (ay != 0.0 || ap != 0.0 || ar != 0.0);
+            std::string xml = std::string("    <Extrude") + oo.attrs + (any ? " " + attr_num("angles", {ay, ap, ar}) : std::string()) + ">\n" + inner[in] + "    </Extrude>\n";
+            chart_case<MeshH3>(c, std::string("extrude/") + inner_name[in] + " " + oo.name + " angles=" + g6(ay) + "," + g6(ap) + "," + g6(ar), xml, oo.expect);
+          }
+      }
     }
 
     // ------------------------------------------------------------------ C: property-map trees
